@@ -171,6 +171,32 @@ def run(cx):
         cx.ob('EXPR', 'cotan_laplacian_triplets', cot_ok and edge_acc and half and distinct and diag == {0, 1} and sym == {(0, 1), (1, 0)},
               'cot(angle j) is added to face_edges[j] (same j), the sums are halved, each edge weight is added to the diagonal of BOTH end vertices, and -w is emitted at (e0,e1) and (e1,e0)',
               where=b.file, found=f'cot={cot_ok} edge={edge_acc} half={half} diag={sorted(diag)} offdiag={sorted(sym)}')
+    # ---------------------------------------------------------------- extension of the boundary layout into the interior (x coordinates)
+    b = cx.fn(f'{CF}::calc_extend_uv_xs')
+    if b:
+        from vpa import term as T
+        okx, why = T.exhaustive_loops(cx, b)
+        ex = b.exits()
+        lps = b.loops()
+        ok_all = len(ex) == 1 and len(lps) == 2 and all(b.dominates(h, ex[0]) for h, _, _ in lps)
+        dag = b.dag()
+        kinds = set()
+        for m in b.mutations():
+            if m.kind != 'store' or m.root not in cx.returned_locals(b):
+                continue
+            tgt = simplify(dag.local(m.data['pl']['l'], m.bb, m.idx))
+            val = simplify(dag.rvalue(m.data['rv'], m.bb, m.idx))
+            e = match('(call Mat::index_mut _ (agg tuple (0 (cast _ (field 0 (itervar (call Iterator::zip $ids $vals))))) (1 0)))', tgt) or \
+                match('(call Mat::index_mut _ (agg tuple (0 (field 0 (itervar (call Iterator::zip $ids $vals)))) (1 0)))', tgt)
+            if e is None or match('(field 1 (itervar (call Iterator::zip $ids $vals)))', val, e) is None:
+                continue
+            if match('(param i_bound)', e['ids']) is not None and find('(param uvb)', e['vals']) is not None:
+                kinds.add('boundary')
+            if match('(param i_inner)', e['ids']) is not None and find('(call *::solve (param aii_lu) _)', e['vals']) is not None:
+                kinds.add('inner')
+        cx.ob('ORDER', 'calc_extend_uv_xs:every-vertex', okx and ok_all and kinds == {'boundary', 'inner'},
+              'the single return is reached only after BOTH copy loops (no early exit): every boundary vertex gets its x from the boundary layout and every inner vertex its x from the '
+              'interior solve, row = the vertex id paired with the value by zip', where=b.file, found=f'exits={len(ex)} loops={len(lps)} stores={sorted(kinds)} ' + '; '.join(why))
     # ---------------------------------------------------------------- the 2x2 inverse used by the boundary fit
     b = cx.fn(f'{CF}::invert_2x2')
     if b:
